@@ -540,6 +540,112 @@ Proof.
       split; [exact Hh|]. rewrite decide_True by reflexivity. eauto.
 Qed.
 
+Ltac ins_cases_in H :=
+  repeat match type of H with
+         | context [<[?a := _]> _ !! ?p] =>
+             destruct (decide (a = p)) as [->|?];
+             [rewrite lookup_insert in H | rewrite lookup_insert_ne in H by assumption]
+         end.
+Ltac use_lookups :=
+  repeat match goal with
+         | H : ps ?s !! ?q = Some _, H' : context [ps ?s !! ?q] |- _ =>
+             lazymatch type of H' with ps s !! q = Some _ => fail | _ => rewrite H in H' end
+         end.
+
+(* the flag and the server transport change only at well-defined events *)
+Lemma hosting_rises_only_by_promote s e s' p :
+  step s e = Some s' -> pget hosting true s p = false -> pget hosting false s' p = true ->
+  exists h, e = EDeliverDown h p /\ head (chan (down s) h p) = Some Promote.
+Proof.
+  intros Hs H1 H2. unfold pget in *.
+  destruct e; step_inv Hs; pssimpl_in H2; ins_cases_in H2; use_lookups; simpl in *; try congruence;
+    try (destruct (ps s !! p) eqn:?; congruence).
+  all: try (eexists; split; [reflexivity|]; match goal with H : chan _ _ _ = _ |- _ => rewrite H end; reflexivity).
+Qed.
+
+Lemma hosting_falls_only_when s e s' p :
+  step s e = Some s' -> pget hosting false s p = true -> pget hosting true s' p = false ->
+  e = ENotify p /\
+  exists x c q, ps s !! p = Some x /\ srv_gate x = true /\ flag x = true /\ clients x = [] /\ srv_events x = (false, c) :: q.
+Proof.
+  intros Hs H1 H2. unfold pget in *.
+  destruct e; step_inv Hs; pssimpl_in H2; ins_cases_in H2; use_lookups; simpl in *; try congruence;
+    try (destruct (ps s !! p) eqn:?; congruence).
+  bool_hyps. split; [reflexivity|]. eexists _, _, _. split; [eassumption|]. split_and?; try eassumption.
+  destruct (clients _); [reflexivity|discriminate].
+Qed.
+
+Lemma flag_rises_only_by_message s e s' p :
+  step s e = Some s' -> pget flag true s p = false -> pget flag false s' p = true ->
+  (exists h, e = EDeliverDown h p /\
+             (head (chan (down s) h p) = Some Promote \/ exists q, head (chan (down s) h p) = Some (NewHost q)))
+  \/ (exists c q, e = EDeliverUp c p /\ head (chan (up s) c p) = Some (NewHost q)).
+Proof.
+  intros Hs H1 H2. unfold pget in *.
+  destruct e; step_inv Hs; pssimpl_in H2; ins_cases_in H2; use_lookups; simpl in *; try congruence;
+    try (destruct (ps s !! p) eqn:?; congruence).
+  all: match goal with H : chan _ _ _ = _ |- _ =>
+         first [ left; eexists; split; [reflexivity|]; left; rewrite H; reflexivity
+               | left; eexists; split; [reflexivity|]; right; rewrite H; eexists; reflexivity
+               | right; eexists _, _; split; [reflexivity|]; rewrite H; reflexivity ] end.
+Qed.
+
+Lemma flag_falls_only_when s e s' p :
+  step s e = Some s' -> pget flag false s p = true -> pget flag true s' p = false ->
+  e = ENotify p \/ e = EVerify p.
+Proof.
+  intros Hs H1 H2. unfold pget in *.
+  destruct e; step_inv Hs; pssimpl_in H2; ins_cases_in H2; use_lookups; simpl in *; try congruence;
+    try (destruct (ps s !! p) eqn:?; congruence); auto.
+Qed.
+
+(* a promoted peer that hosts keeps hosting -- until it is itself told to hand over (a NewHost from
+   one of its clients) or promoted again *)
+Lemma promote_opens_window s h p s' :
+  roles_inv s -> step s (EDeliverDown h p) = Some s' -> head (chan (down s) h p) = Some Promote ->
+  pget hosting true s p = false ->
+  exists x', ps s' !! p = Some x' /\ hosting x' = true /\ flag x' = true /\ window x'.
+Proof.
+  intros (Hwf & _ & _) Hs Hh Hp. unfold pget in Hp.
+  step_inv Hs; simpl in Hh; try discriminate; try congruence.
+  pssimpl. rewrite lookup_insert. eexists. split; [reflexivity|]. simpl.
+  split; [reflexivity|]. split; [reflexivity|]. intros _. simpl. left.
+  match goal with H : ps s !! p = Some ?y, H' : hosting ?y = false |- _ => destruct (Hwf _ _ H) as (W1 & _); destruct (W1 H') as (? & ? & _) end.
+  auto.
+Qed.
+
+Lemma window_step s e s' p x :
+  ps s !! p = Some x -> hosting x = true -> window x -> step s e = Some s' ->
+  (forall c q, e = EDeliverUp c p -> head (chan (up s) c p) <> Some (NewHost q)) ->
+  (forall h, e = EDeliverDown h p -> head (chan (down s) h p) = Some ReqInit) ->
+  exists x', ps s' !! p = Some x' /\ hosting x' = true /\ window x'.
+Proof.
+  intros Hx Hh Hw Hs Hno1 Hno2.
+  destruct e; step_inv Hs; pssimpl; ins_cases; same_lookup; rewrite ?Hx;
+    try (eexists; split; [reflexivity|]; split; [assumption|assumption]).
+  all: try (exfalso; specialize (Hno2 _ eq_refl);
+            match goal with H : chan _ _ _ = _ |- _ => rewrite H in Hno2 end; discriminate).
+  all: try (exfalso; eapply Hno1; [reflexivity|];
+            match goal with H : chan _ _ _ = _ |- _ => rewrite H end; reflexivity).
+  all: eexists; split; [reflexivity|]; unfold window in *; simpl; bool_hyps.
+  all: try (split; [assumption|intros; discriminate]).
+  - (* ENotify, ClientConnected, flag not set *)
+    split; [assumption|]. intros Hf. congruence.
+  - (* ENotify, the server is closed: impossible inside the window *)
+    exfalso. destruct (Hw ltac:(assumption)) as [[Hq _]|(c' & q' & Hq)]; congruence.
+  - (* ENotify, ClientDisconnected ignored *)
+    split; [assumption|]. intros Hf. exfalso.
+    destruct (Hw Hf) as [[Hq _]|(c' & q' & Hq)]; congruence.
+  - (* EConnect to p *)
+    split; [assumption|]. intros Hf. right.
+    destruct (Hw Hf) as [[Hq _]|(c' & q' & Hq)]; rewrite Hq; simpl; eauto.
+  - (* ETimeout at p *)
+    split; [assumption|]. intros Hf. right.
+    destruct (Hw Hf) as [[Hq Hc]|(c' & q' & Hq)].
+    + exfalso. match goal with H : _ ∈ clients x |- _ => rewrite Hc in H; inversion H end.
+    + rewrite Hq. simpl. eauto.
+Qed.
+
 (* ================================================================================================
    Part 6: a chain of promotions (two peers): promote 1, then promote 0 back
    ================================================================================================ *)
